@@ -644,6 +644,9 @@ def lt_keys(P, Ev, o):
 
     def tie_attr(cmp):
         """`me.k != other.k` -> (k, 'ne') ; `==` -> (k, 'eq')"""
+        if isinstance(cmp, ast.UnaryOp) and isinstance(cmp.op, ast.Not):          # `not a.k != b.k` is `a.k == b.k`
+            r = tie_attr(cmp.operand)
+            return None if r is None else (r[0], 'eq' if r[1] == 'ne' else 'ne')
         if not (isinstance(cmp, ast.Compare) and len(cmp.ops) == 1):
             return None
         a, b = side(cmp.left), side(cmp.comparators[0])
@@ -713,7 +716,8 @@ def lt_keys(P, Ev, o):
             return
         bad(s, 'unrecognised statement in Event.__lt__')
 
-    walk(fn.body)
+    from ..cfg import split_conditional_returns
+    walk(list(split_conditional_returns(fn, fn.body)))        # `return a if c else b` reads as the if-chain it abbreviates
     return keys
 
 CLAIM = {
